@@ -46,7 +46,17 @@ RULE = ("Scripts: one script per push length 0..521 (all three length classes an
         "(direct, PUSHDATA1/2/4) at lengths 0/1/74..77/254..257/519..521/600.  Fetcher with its network argument: "
         "call histories (fresh / cached) over mainnet, testnet, signet and unserved names ('regtest', '', 'Mainnet') "
         "with honest / other / garbage responses, URL requested or not, network label of what is returned; a cached "
-        "id requested under another network name.")
+        "id requested under another network name.  Less travelled doors (audit of round-3 blind spots): default-constructed "
+        "TxIn / Script / Witness / parsed empty objects edited in place while other objects are observed; TxIn.finalize_* with "
+        "signatures that differ from each other; script commands / witness items / objects edited in place AFTER a first "
+        "serialisation, the source edited after clone(); Tx.parse / parse_hex / parse_legacy / parse_segwit with a network "
+        "(positional and keyword), RedeemScript / WitnessScript convert / parse; Script + Script observed on its operands; "
+        "fetcher histories with a verdict after every call (cache invariant also after a refused answer, honest retry, refused "
+        "fresh re-fetch of a cached id); dump_cache / load_cache; TxIn.value / script_pubkey / fetch_tx, Tx.fee, "
+        "Tx.get_input_tx_lookup on inputs spending different outputs of different transactions, lying server then honest "
+        "retry; hand-built encodings with ONE non-minimal compact size (every field kind x widths 3/5/9, incl. fd 00 00 as a "
+        "zero input count); coinbase outpoint, all-00 / all-ff fields, hex text without letters / without digits; requested "
+        "id in the other byte order / wtxid.")
 TRUSTED = ["hashlib (sha256) — hash256 is a universally quantified function in the theorems",
            "modelled, not verified: object plumbing (Script/TxIn/TxOut/Tx/Witness constructors, Sequence/Locktime "
            "int subclasses are modelled as a range check at construction), urllib Request construction"]
@@ -2449,10 +2459,10 @@ def generate(ctx):
         yield ("prop", "fetch", [hx.upper(), ref_txid(v).encode(), 1])
         yield ("corr", "tx_parse_hex", [hx])
         yield ("corr", "tx_parse_hex", [hx.upper()])
-        yield ("corr", "fetch_text", [hx.upper() + b"\n", ref_txid(v).encode()])
-        if len(hx) < 2000:
+        if len(hx) < 2000:   # (the model's text layer is too slow on a 130 kB response)
+            yield ("corr", "fetch_text", [hx.upper() + b"\n", ref_txid(v).encode()])
             yield ("prop", "inplace_deep", [v, b"\x00", b"", b"testnet"])
-    assert special[-2] and not any(c in b"abcdef" for c in ref_full(special[-2]).hex().encode())
+    assert not any(c in b"abcdef" for c in ref_full(special[-2]).hex().encode())
     assert not any(c in b"0123456789" for c in ref_full(special[-1]).hex().encode())
     # the requested id in another byte order / of the full (witness) serialisation is not the transaction's id
     for k in range(ctx.n(40, 400)):
